@@ -7,7 +7,7 @@
    real builders and [slice] to Array::slice / ArrayData::slice on every generated layout. *)
 From Coq Require Import List Arith NArith ZArith Bool.
 From AV Require Import Base.Bytes Model.C09_Layout Model.C02_Logical Model.C02_Equal Model.C02_Rows.
-From AV Require Import Proofs.C02_Slice Proofs.C02_Readback Proofs.C02_EqualNulls Proofs.C02_EqualPrim Proofs.C02_EqualBool Proofs.C02_EqualBin Proofs.C02_EqualList Proofs.C02_EqualListPrim Proofs.C02_EqualDict Proofs.C02_EqualStruct Proofs.C02_Reflect Proofs.C02_Rows.
+From AV Require Import Proofs.C02_Slice Proofs.C02_Readback Proofs.C02_EqualNulls Proofs.C02_EqualPrim Proofs.C02_EqualBool Proofs.C02_EqualBin Proofs.C02_EqualList Proofs.C02_EqualListPrim Proofs.C02_EqualDict Proofs.C02_EqualStruct Proofs.C02_EqualFixedList Proofs.C02_Reflect Proofs.C02_Rows.
 Import ListNotations.
 
 (* ---- slicing is a window on the logical content: EVERY modelled type (Null, Boolean, fixed width,
@@ -161,6 +161,19 @@ Theorem struct_equal_range : forall (fs : list (bool * dty)) (alen : nat) (anull
          map (fun k => logical_at k (ls + i)) akids = map (fun k => logical_at k (rs + i)) (p_kids b)).
 Proof. exact struct_equal_iff. Qed.
 Print Assumptions struct_equal_range.
+
+(* FixedSizeList (any array offset), compositional *)
+Theorem fixed_list_equal_range : forall (sz : Z) (nullable : bool) (c : dty) (alen aoff : nat) (anulls : option nullbuf)
+    (abufs : list (list N)) (ka : parr) (akids : list parr) (b kb : parr) (bkids : list parr),
+  let a := PArr (TFixedList sz nullable c) alen aoff anulls abufs (ka :: akids) in
+  p_kids b = kb :: bkids -> range_ok ka kb ->
+  forall ls rs n,
+  (aoff + ls + n) * Z.to_nat sz <= p_len ka -> (p_off b + rs + n) * Z.to_nat sz <= p_len kb ->
+  (forall i, i < n -> slot_valid a (ls + i) = slot_valid b (rs + i)) ->
+  (equal_values a b ls rs n = true
+   <-> forall i, i < n -> slot_valid a (ls + i) = true -> fslice sz a ka (ls + i) = fslice sz b kb (rs + i)).
+Proof. exact fixed_list_equal_iff. Qed.
+Print Assumptions fixed_list_equal_range.
 
 (* equal_nulls / contains_nulls through the BitSliceIterator specification *)
 Theorem equal_nulls_spec : forall a b ls rs n,
